@@ -164,6 +164,12 @@ def gen_case(rng, cls=None, force=None):
             fl = "ordinal"
         f["flavour"] = fl
         f["values"] = encs(inject_nan(rng, xs, share))
+        if kind == "cat" and all(isinstance(v, str) for v in xs) and rng.random() < 0.25:
+            # the caller also declares the modalities of a NON-ordinal feature (in an arbitrary order): the
+            # feature is still ordered by target rate
+            decl = sorted(set(xs))
+            rng.shuffle(decl)
+            f["declared"] = encs(decl)
         feats.append(f)
     continuous = cls == "ContinuousCarver"
     params = {"min_freq": rng.choice([0.05, 0.1, 0.15, 0.2, 0.34]),
@@ -228,6 +234,8 @@ def fit_object(case):
     cat = [f["name"] for f in case["features"] if f["kind"] == "cat"]
     ordi = [f["name"] for f in case["features"] if f["kind"] == "ord"]
     orders = {f["name"]: GroupedList(decs(f["order"])) for f in case["features"] if f["kind"] == "ord"}
+    orders.update({f["name"]: GroupedList(decs(f["declared"])) for f in case["features"]
+                   if f["kind"] == "cat" and f.get("declared")})
     if cls == "Discretizer":
         obj = Discretizer(quantitative_features=quant, qualitative_features=cat, ordinal_features=ordi,
                           values_orders=orders, min_freq=p["min_freq"], copy=True, verbose=False, **kw)
